@@ -75,3 +75,45 @@ def identifier_resolvers(repo: Repo, rep: Report, rule: str) -> None:
         n += 1
         rep.check(bool(order) and order[0][1] == "param_values", rule, f"{f.short}: parameters are looked up before outer names", str([a for _, a in order]), f.loc())
     rep.floor(rule, "identifier resolvers", n, 2)
+
+
+def reads_repointed_only_for_own_cell(repo: Repo, rep: Report, rule: str) -> None:
+    """In the arithmetic-feedback rewrite every re-pointing of a recorded read is guarded by `its memory id == this cell's id`."""
+    opt = repo.func("MemoryBuilder._optimize_to_arithmetic_feedback")
+    pm = parents_map(opt.node)
+    n = 0
+    for loop in [x for x in walk_local(opt.node) if isinstance(x, ast.For) and "_read_sources" in norm(x.iter)]:
+        mem_var = norm(loop.target.elts[1]) if isinstance(loop.target, ast.Tuple) and len(loop.target.elts) == 2 else None
+        for x in ast.walk(loop):
+            touches = (isinstance(x, ast.Call) and call_name(x) == "set_source") or (isinstance(x, ast.Assign) and isinstance(x.targets[0], ast.Subscript) and "_sources" in norm(x.targets[0].value))
+            if not touches:
+                continue
+            n += 1
+            st = x
+            while not isinstance(st, ast.stmt):
+                st = pm[st]
+            gs = [(norm(t), pol) for t, pol in guard_chain(opt, st, pm)]
+            ok = any(pol and mem_var is not None and (g.startswith(f"{mem_var} == op.memory_id") or g.startswith(f"op.memory_id == {mem_var}")) for g, pol in gs)
+            rep.check(ok, rule, f"{opt.short}: `{norm(x)[:50]}` only for reads of the cell being optimised",
+                      "guarded by the memory id" if ok else "reads of *other* memory cells are re-pointed at this cell's arithmetic node: two independent cells interfere", opt.loc(x))
+    rep.floor(rule, "read re-pointing sites", n, 2)
+
+
+def bundle_literal_sibling_branches(repo: Repo, rep: Report, rule: str) -> None:
+    """Both member-contributing branches of the analyzer's bundle-literal check test members against, and record them in, the seen-map."""
+    ib = repo.func("SemanticAnalyzer._infer_bundle_literal_type")
+    n_br = 0
+    for n in walk_local(ib.node):
+        if isinstance(n, ast.If) and norm(n.test).startswith("isinstance(element_type,") and ("SignalValue" in norm(n.test) or "BundleValue" in norm(n.test)):
+            n_br += 1
+            body = n.body
+            kind = "SignalValue" if "SignalValue" in norm(n.test) else "BundleValue"
+            adds = [x for s in body for x in ast.walk(s) if (isinstance(x, ast.Call) and call_name(x) in ("add", "update") and "signal_types" in norm(x.func)) or (isinstance(x, ast.AugAssign) and norm(x.target) == "signal_types")]
+            recs = [x for s in body for x in ast.walk(s) if (isinstance(x, ast.Subscript) and isinstance(x.ctx, ast.Store) and norm(x.value) == "seen_signals") or (isinstance(x, ast.Call) and call_name(x) in ("update", "setdefault") and norm(x.func.value) == "seen_signals")]
+            tests = [x for s in body for x in ast.walk(s) if (isinstance(x, ast.Compare) and isinstance(x.ops[0], ast.In) and norm(x.comparators[0]) == "seen_signals") or
+                     (isinstance(x, ast.BinOp) and isinstance(x.op, ast.BitAnd) and "seen_signals" in norm(x))]
+            errs = [x for s in body for x in ast.walk(s) if isinstance(x, ast.Call) and isinstance(x.func, ast.Attribute) and x.func.attr == "error"]
+            ok = bool(adds) and bool(recs) and bool(tests) and bool(errs)
+            rep.check(ok, rule, f"bundle literal check, {kind} members: tested against and recorded in the seen-map",
+                      f"adds:{len(adds)} records:{len(recs)} tests:{len(tests)} errors:{len(errs)}" + ("" if ok else ": members contributed by this branch escape duplicate detection, so a later duplicate is accepted and the values are summed"), ib.loc(n))
+    rep.floor(rule, "member-contributing branches", n_br, 2)
